@@ -73,6 +73,31 @@ fn check_inner(s: &str) -> Option<String> {
             }
         }
     }
+    // "matches exactly s": anchored hosts (also in multi-line mode, where \A / \z keep their meaning) match a text iff it IS s
+    let exact_hosts = ["\\A(?:{})\\z", "(?m)\\A(?:{})\\z", "(?m:\\A(?:{})\\z)", "^(?:{})$", "(?m)(?<![\\s\\S])(?:{})\\z", "(?=({}))\\1\\z"];
+    let mut texts2 = texts.clone();
+    texts2.push(format!("{}\n", s));
+    texts2.push(format!("{}\nx", s));
+    texts2.push(format!("\n{}", s));
+    texts2.push(format!("x\n{}\ny", s));
+    for host in exact_hosts {
+        let pat = host.replace("{}", &e);
+        let re = match Regex::new(&pat) {
+            Ok(r) => r,
+            Err(err) => return Some(format!("host {:?}: pattern {:?} does not compile: {:?}", host, pat, err)),
+        };
+        for t in &texts2 {
+            // the last host is not anchored at the start: it finds s as a suffix of the text
+            let want = if host.starts_with("(?=") { if t.ends_with(s) { Some((t.len() - s.len(), t.len())) } else { None } } else if t == s { Some((0, s.len())) } else { None };
+            let got = match re.find(t) {
+                Ok(m) => m.map(|m| (m.start(), m.end())),
+                Err(err) => return Some(format!("host {:?} text {:?}: {:?}", host, t, err)),
+            };
+            if got != want {
+                return Some(format!("anchored host {:?}: searching {:?} in {:?} gives {:?}, expected {:?}", host, s, t, got, want));
+            }
+        }
+    }
     None
 }
 
